@@ -348,6 +348,158 @@ fn run_channel(ctx: &Ctx, name: &str, rows: Vec<usize>, channel_of: impl Fn(usiz
     let _ = std::fs::remove_dir_all(env.scratch_root());
 }
 
+
+// ------------------------------------------------------------------------------------------
+// server part: "the server refuses to start on a rejected configuration"
+// ------------------------------------------------------------------------------------------
+
+#[derive(Clone, Debug, Serialize, Deserialize)]
+pub struct SCase {
+    pub row: Row,
+    /// settings delivered through KYRODB__ environment variables of the child instead of the file
+    pub via_env: Vec<String>,
+}
+
+pub struct Srv;
+
+impl Prop for Srv {
+    type Case = SCase;
+    fn part(&self) -> &'static str {
+        "server"
+    }
+    fn shape(&self, _t: Tier) -> RawShape {
+        RawShape { head_len: 1, chunk_len: 1, min_chunks: 0, max_chunks: 0 }
+    }
+    fn max_shrink_iters(&self) -> u32 {
+        0
+    }
+    fn rule(&self) -> String {
+        "seeded sample of grid rows that violate exactly one stated condition (every condition represented) plus accepted benchmark rows, each started through the real kyrodb_server binary (TOML file, a seeded subset of the settings through the child's KYRODB__ environment); a rejected row must make the process exit non-zero without opening its port, an accepted row must open it; non-trivial = rejected rows; distinct = (row, env subset)".into()
+    }
+    fn decode(&self, _raw: &Raw, _t: Tier) -> SCase {
+        SCase { row: row_at(0), via_env: vec![] }
+    }
+    fn run(&self, case: &SCase, env: &CaseEnv) -> Result<CaseReport, Failure> {
+        use std::time::{Duration, Instant};
+        let shard = super::c10::SHARD.with(|s| *s);
+        let port = crate::common::srv::port_for(shard);
+        let root = env.dir("srv");
+        let row = &case.row;
+        let filler = crate::common::tape::fnv64(serde_json::to_string(row).unwrap().as_bytes());
+        let mut sets: Vec<Setting> = settings(row, filler).into_iter().filter(|s| !(s.section == "server" && s.key == "port")).collect();
+        sets.push(Setting { section: "server", key: "port", value: port.to_string(), env_value: port.to_string(), is_default: false });
+        sets.push(Setting { section: "server", key: "http_port", value: (port + 1).to_string(), env_value: (port + 1).to_string(), is_default: false });
+        sets.push(Setting { section: "persistence", key: "data_dir", value: toml_str(&root.join("data").to_string_lossy()), env_value: root.join("data").to_string_lossy().to_string(), is_default: false });
+        if row.auth {
+            // a real key file so that an ACCEPTED row could start; rejected rows never get that far
+            let keys = root.join("keys.yaml");
+            std::fs::write(&keys, "api_keys:\n  - key: kyro_alpha_a1a1a1a1a1a1a1a1a1a1a1a1a1a1a1a1\n    tenant_id: alpha\n    tenant_name: alpha\n    max_qps: 0\n    max_vectors: 100\n    is_admin: false\n    enabled: true\n").map_err(|e| Failure::new("setup_failed", e.to_string()))?;
+            for s in sets.iter_mut() {
+                if s.section == "auth" && s.key == "api_keys_file" {
+                    s.value = toml_str(&keys.to_string_lossy());
+                    s.env_value = keys.to_string_lossy().to_string();
+                }
+            }
+        }
+        let in_file: Vec<&Setting> = sets.iter().filter(|s| !case.via_env.contains(&env_name(s))).collect();
+        let text = render(&in_file, false);
+        let cfg = root.join("server.toml");
+        std::fs::write(&cfg, &text).map_err(|e| Failure::new("setup_failed", e.to_string()))?;
+        let log = std::fs::File::create(root.join("server.log")).map_err(|e| Failure::new("setup_failed", e.to_string()))?;
+        let exe = std::env::current_exe().map_err(|e| Failure::new("setup_failed", e.to_string()))?.parent().unwrap().join("kyrodb_server");
+        let mut cmd = std::process::Command::new(exe);
+        cmd.arg("--config").arg(&cfg).current_dir(&root).stdin(std::process::Stdio::null()).stdout(std::process::Stdio::from(log.try_clone().unwrap())).stderr(std::process::Stdio::from(log));
+        for (k, _) in std::env::vars() {
+            if k.starts_with("KYRODB") || k == "LD_PRELOAD" {
+                cmd.env_remove(k);
+            }
+        }
+        for s in sets.iter().filter(|s| case.via_env.contains(&env_name(s))) {
+            cmd.env(env_name(s), &s.env_value);
+        }
+        let mut child = cmd.spawn().map_err(|e| Failure::new("setup_failed", format!("spawn: {}", e)))?;
+        let bad = violated(row);
+        let t0 = Instant::now();
+        let mut opened = false;
+        let mut exit: Option<Option<i32>> = None;
+        // the bind address of the row may be non-loopback (0.0.0.0, [::]): loopback connects reach those too
+        while t0.elapsed() < Duration::from_secs(if bad.is_empty() { 20 } else { 15 }) {
+            if let Ok(Some(st)) = child.try_wait() {
+                exit = Some(st.code());
+                break;
+            }
+            let probe_host = if row.host.starts_with("127.") { row.host.as_str() } else { "127.0.0.1" };
+            if std::net::TcpStream::connect((probe_host, port)).is_ok() {
+                opened = true;
+                break;
+            }
+            std::thread::sleep(Duration::from_millis(15));
+        }
+        let _ = child.kill();
+        let _ = child.wait();
+        let tail = std::fs::read_to_string(root.join("server.log")).unwrap_or_default();
+        let tail: String = tail.lines().filter(|l| l.contains("Error") || l.contains("error")).take(2).collect::<Vec<_>>().join(" | ").chars().take(300).collect();
+        let mut rep = CaseReport::default();
+        if !bad.is_empty() {
+            rep.nontrivial = true;
+            rep.label(&format!("rejected_row:{}", bad[0]));
+            if opened {
+                return Err(Failure::new("server_started_on_rejected_configuration", format!("the server opened its port although the configuration violates {:?}: {:?} (settings through the environment: {:?})\n{}", bad, row, case.via_env, text)).with_sig(json!({"kind": "server_started_on_rejected_configuration", "conditions": bad})));
+            }
+            match exit {
+                Some(Some(0)) => return Err(Failure::new("server_exit_zero_on_rejected_configuration", format!("the server exited with status 0 on a configuration that violates {:?}: {:?}", bad, row)).with_sig(json!({"kind": "server_exit_zero_on_rejected_configuration"}))),
+                Some(_) => rep.label("refused_with_nonzero_exit"),
+                None => {
+                    // validation happens before anything else at start-up (rejected rows exit within
+                    // milliseconds); a process still alive after 15 s did not refuse the configuration
+                    return Err(Failure::new("server_did_not_exit_on_rejected_configuration", format!("the server was still running 15 s after start on a configuration that violates {:?}: {:?} (log: {})", bad, row, tail)).with_sig(json!({"kind": "server_started_on_rejected_configuration", "conditions": bad})));
+                }
+            }
+        } else {
+            rep.label("accepted_row");
+            if !opened {
+                // an accepted row that does not come up is not this property's business, but it
+                // would make the rejected-row observations meaningless: report as inconclusive
+                return Err(Failure::new("setup_failed", format!("accepted control row did not open its port (exit {:?}): {:?}; log: {}", exit, row, tail)));
+            }
+        }
+        Ok(rep)
+    }
+}
+
+fn server_cases(ctx: &Ctx) -> Vec<SCase> {
+    let n = ctx.tier.pick(6, 40);
+    let mut per_cond: std::collections::BTreeMap<&'static str, Vec<usize>> = Default::default();
+    let mut controls = vec![];
+    for i in 0..GRID {
+        // seeded order
+        let j = (crate::common::tape::mix64(ctx.seed ^ 0x5e17, i as u64) % GRID as u64) as usize;
+        let row = row_at(j);
+        let bad = violated(&row);
+        if bad.len() == 1 {
+            let v = per_cond.entry(bad[0]).or_default();
+            if v.len() < n && !v.contains(&j) {
+                v.push(j);
+            }
+        } else if bad.is_empty() && row.env.trim().eq_ignore_ascii_case("benchmark") && !row.auth && !row.tls && row.obs_auth == "disabled" && row.host.starts_with("127.") && controls.len() < ctx.tier.pick(6, 24) && !controls.contains(&j) {
+            controls.push(j);
+        }
+        if i > 40_000 && per_cond.values().all(|v| v.len() >= n) {
+            break;
+        }
+    }
+    let mut out = vec![];
+    for j in per_cond.values().flatten().chain(controls.iter()) {
+        let row = row_at(*j);
+        let filler = crate::common::tape::fnv64(serde_json::to_string(&row).unwrap().as_bytes());
+        let names: Vec<String> = settings(&row, filler).iter().filter(|s| !(s.section == "server" && s.key == "port")).map(env_name).collect();
+        let mut m = Mix(ctx.seed ^ *j as u64);
+        let via_env: Vec<String> = names.into_iter().filter(|_| m.below(4) == 0).collect();
+        out.push(SCase { row, via_env });
+    }
+    out
+}
+
 pub fn main(ctx: &Ctx) {
     ctx.assume("one-directional oracle as in the property: nothing is asserted about rejected rows; loopback = 127.0.0.0/8, ::1, localhost");
     ctx.assume("the KYRODB__ environment channel is process-global: the mixed channel runs single-threaded after the file-only channels");
@@ -369,8 +521,12 @@ pub fn main(ctx: &Ctx) {
     let mix_rows = if ctx.tier == Tier::Thorough { all.clone() } else { slice(6, 2) };
     let seed = ctx.seed;
     run_channel(ctx, "mixed", mix_rows, move |i| Channel::Mix(crate::common::tape::mix64(seed, i as u64)), 1, false);
+    // the real binary on a sample of rejected rows (every stated condition) and accepted controls
+    run_committed_replays(ctx, &Srv);
+    let cases = server_cases(ctx);
+    run_cases(ctx, &Srv, "server", cases, false);
 }
 
 pub fn replay(ctx: &Ctx, v: &serde_json::Value) -> Option<i32> {
-    replay_file(ctx, &C18, v)
+    replay_file(ctx, &C18, v).or_else(|| replay_file(ctx, &Srv, v))
 }
